@@ -6,7 +6,7 @@ NOT_APPLICABLE = {
     "C16": "The token-tiling invariant is a pure function of the input string observed on a deterministic token stream; no state, schedule or fault is involved.",
 }
 PENDING = {p: "not claimed yet: the simulated scenario for this property is designed (DESIGN.md section 5) but its check is still being built" for p in
-           ["C03", "C05", "C08", "C10", "C12", "C13", "C17", "C19", "C20"]}
+           ["C05", "C08", "C10", "C12", "C13", "C17", "C19", "C20"]}
 
 TEXT = {
     "C04": {
@@ -44,5 +44,11 @@ TEXT = {
         "design_ref": "DESIGN.md section 5 C14",
         "level_text": "Same simulated histories with --force four times as frequent, including first runs, runs after failures and after cache removal: in a successful forced invocation every closure task must have executed all its commands and none may be reported skipped; afterwards every reported skip must still be legal with last[] updated by forced successes too.",
         "level_note": "Trusted: as C01.",
+    },
+    "C03": {
+        "technique": "deterministic simulation: seeded dag iteration order (instrumented collections/dag) + seeded graphs/requests/failures against the real CLI, order read from the side-effect log",
+        "design_ref": "DESIGN.md section 5 C03, section 3.5",
+        "level_text": "Seeded exploration: dependency graphs over n <= 4 tasks drawn from all edge sets (self-loops included) plus sparse graphs up to 8 tasks, every kind of request list, undefined/duplicate names, one failing command in half the runs, file dependencies and a second run in 30%; the map-iteration order inside the topological sort is drawn from the simulator's PRNG (so a given seed replays the same order). Oracle: closure exactly once (executed completely or reported skipped), dependencies first (log and --json), nothing outside the closure, nothing twice, and undefined/duplicate/cyclic selections are an error that runs nothing. Small spaces (n=2: 16 graphs, n=3: 512) are covered many times with different permutations; still sampling.",
+        "level_note": "Trusted: the instrumented copy of collections/dag (two iteration sites changed) behaves like the original up to iteration order; the side-effect log as ground truth.",
     },
 }
